@@ -18,6 +18,29 @@ CLAIMED["C11"] = dict(engine="payload", design="3 C11",
    text="Two layers, both decided by TLC on transcriptions and re-decided on the real code: chunks (Queue.tla, formula C11_Chunk over every Push/Pop history) and payload parts (Payload.tla: Bin.Add/IsFull/Split and the startBin loop body; every chunk sequence of one or two files within the size bounds, payload sizes with slack 0/1/2, every flush position and every Split(n)). Every TLC behaviour is replayed on the real queue.Tagged / payload.Bin / client.binnable and compared event by event; TLC evaluates the tiling formulas on the observed payload headers, also for random runs of the real queue feeding the real bin.",
    note="Trusted: as C10, plus the harness's repetition of the private startBin loop body around the real Bin (the sender-level harness observes the real Broker's payloads). Bounds: quick file sizes 1..13 x chunk sizes {whole,1,3,10} x payload sizes {9,10,11,20}, one flush; thorough sizes 1..26, payload sizes {3,9,10,11,20}, two flushes.",
    technique="TLA+ transcriptions of queue allocation and payload.Bin model-checked with TLC; replay of every enumerated behaviour on the real code; TLC trace validation of observed chunks and payload headers")
+
+STAGE_NOTE = ("Trusted: TLC, the Json module, the hook package (one-line observation points at the durable steps of stage.Stage / fileutil), the harness's projection "
+  "(directory listing -> block tags by byte comparison, companion JSON, log lines, VerifSnapshot). Bounds: design 2 names x <=2 versions x 2 blocks, 3 (quick) / 4 (thorough) requests, "
+  "2 connections, 1 crash / 1 corruption / 2 cleanings / 1 cache expiry, protocol-following sender; code: each API call run to quiescence (interleavings inside the receiver are decided on the design only). "
+  "Model-found corner cases that the sequential harness cannot schedule (S19) or that are recorded as open findings (S9 S15 S20) are exempted by named KF_ switches; see known_findings.json and DESIGN.md section 5.")
+def stage_entry(design, text):
+    return dict(engine="stage", design=design, text=text, note=STAGE_NOTE,
+      technique="TLA+ model of stage.Stage model-checked with TLC; TLC-generated command sequences and hook-point crash enumeration executed on the real Stage; TLC trace validation of observed durable states")
+CLAIMED["C01"] = stage_entry("3 C01", "TLC checks on Stage.tla, in every reachable state and for every interleaving within the bounds, that the final directory only ever holds a complete announced version whose hash is in the receive log (also between the two renames of the move) and that a positive status is given only for content held validated; the same formulas plus 'a complete body that does not match its hash is reported failed' are evaluated by TLC on the states observed from the real Stage for TLC-generated command sequences of any (also non-protocol) sender: corrupted parts, overwritten staged bytes, wrong announced hash, version changes, restarts.")
+CLAIMED["C04"] = stage_entry("3 C04", "TLC checks on Stage.tla that a file is logged only after its announced predecessor (first log index order) for chains, a predecessor cycle (with the cycle breaker) and restarts; on the real Stage the same formula and 'a validated file whose predecessor is not delivered is held and answered waiting; waiting is said only for a held file' are evaluated over TLC-generated sequences in four universes (chain, cycle, same leaf name in two directories with rename, names that are substrings of one another).")
+CLAIMED["C05"] = stage_entry("3 C05", "TLC checks on Stage.tla that every (name, hash) arrives in the final directory at most once and is logged at most 1 + crashes times, over all retransmission interleavings of a protocol-following sender, crashes, cleaning and cache expiry; on the real Stage the arrivals are counted at the hook after the move and the formulas, 'queries change nothing durable' and 'a retransmission of a delivered version is acknowledged and has no effect' are evaluated by TLC on the observed states.")
+CLAIMED["C06"] = stage_entry("3 C06", "TLC explores a crash after every durable action of Stage.tla (one action per file-system mutation) followed by the steps of Recover, and checks no stranded move, no loss of anything confirmed, C01 and C05 across the crash; on the real code every occurrence of every hook point of every command of the selected scenarios is a crash point (image copied while the goroutine is parked, new Stage + Recover on the image, sender asks before re-sending) and TLC evaluates the same formulas and the post-recovery condition of every companion on the observed states.", ) | dict(category="model_checking")
+CLAIMED["C09"] = stage_entry("3 C09", "TLC checks on Stage.tla (two connections, write before lock) that a companion only claims blocks that were written into a staged body and that a body is treated as complete only if every block was written; on the real Stage the formulas are evaluated on the observed .part/.full/.wait bytes against the companion, Scan listings and Received answers.")
+CLAIMED["C20"] = stage_entry("3 C20", "TLC checks on Stage.tla that cleaning removes a partial or companion only of a (name, hash) that was delivered or logged, with AgePart / CleanStray / CleanLoop / ExpireCache enabled between the requests of a running transfer; on the real Stage CleanNow is run after TLC-generated histories (aged partials via chtimes) and TLC evaluates the formula on what the clean hook reported plus 'cleaning touches nothing but day-old partials and their companions'.")
+CLAIMED["C18"] = dict(engine="xferlog", design="3 C18",
+   text="TLC checks completeness and exactness of look-ups and field fidelity of Parse on a character-level model of the record format, the day walk and the line matching for every history of <=2 (quick) / 3 (thorough) records over names that are substrings of one another and every window; sampled enumerated histories and random ones are executed on the real log.FileIO and TLC evaluates the formulas on the observed answers.",
+   note="Trusted: TLC, Json module, the harness's placement of earlier days as day files in the record format. Names containing ':' are the open finding S2 (format).",
+   technique="TLA+ character-level model of the log format model-checked with TLC; replay of enumerated histories on log.FileIO; TLC trace validation")
+CLAIMED["C19"] = dict(engine="conf", design="3 C19",
+   text="TLC enumerates every abstract configuration document (sources x option kinds x absent / explicit zero-or-false / two values; tag lists) and checks inheritance and parse -> JSON -> parse round trip on a transcription of propagate(), CopyStruct and the marshalers; every document is rendered (YAML and JSON, concrete options of every kind), parsed by the real sts.NewConf, re-encoded and parsed again, and TLC evaluates the formulas on the observed effective values. The clause about which files a running sender sends with which tag is decided with the sender-level checks.",
+   note="Trusted: TLC, Json module, the harness's rendering of abstract values into concrete YAML/JSON and back. Open findings ZERO (explicit zero indistinguishable from absent) and S12 (include-hidden) are exempted by switches and reported as KNOWN-FINDING when reproduced.",
+   technique="TLA+ transcription of configuration inheritance enumerated by TLC; every document replayed on sts.NewConf; TLC trace validation")
+
 NOT_YET = {}
 ALL = ["C%02d" % i for i in range(1, 21)]
 
@@ -50,6 +73,12 @@ def main():
         "engines": [
             {"name": "queue", "path": "spec/Queue.tla spec/MCQueue.tla spec/QueueTrace.tla harness/cmd/stsh/queue.go lib/check_queue.py",
              "serves_properties": ["C10", "C12", "C11"], "kind_free_text": "TLC design check + behaviour replay + TLC trace validation"},
+            {"name": "stage", "path": "spec/Stage.tla spec/StageTrace.tla spec/MCStage.tla harness/cmd/stsh/stage.go lib/check_stage.py",
+             "serves_properties": ["C01", "C04", "C05", "C06", "C09", "C20"], "kind_free_text": "TLC design check + TLC-generated scenarios + crash enumeration at hooks + TLC trace validation"},
+            {"name": "xferlog", "path": "spec/XferLog.tla spec/MCXferLog.tla spec/XferLogTrace.tla harness/cmd/stsh/xferlog.go lib/check_xferlog.py",
+             "serves_properties": ["C18"], "kind_free_text": "TLC design check + behaviour replay + TLC trace validation"},
+            {"name": "conf", "path": "spec/Conf.tla spec/MCConf.tla spec/ConfTrace.tla harness/cmd/stsh/conf.go lib/check_conf.py",
+             "serves_properties": ["C19"], "kind_free_text": "TLC enumeration + replay + TLC trace validation"},
             {"name": "payload", "path": "spec/Payload.tla spec/MCPayload.tla spec/PayloadTrace.tla harness/cmd/stsh/payload.go lib/check_payload.py",
              "serves_properties": ["C11"], "kind_free_text": "TLC design check + behaviour replay + TLC trace validation"},
         ],
